@@ -672,6 +672,16 @@ def check_startup_rescans_wired(ctx, why: str):
     check_wired(ctx, "startup.rescan_nglobs", "changed_nglobs", "persist_nglob_matches", "a changed match set is persisted (hash dropped, step re-pended)", why)
     check_wired(ctx, "startup.rescan_env_vars", "steps_to_rerun", "mark_step_pending", "a step whose variable changed is re-pended", why)
     check_wired(ctx, "startup.rescan_env_vars", "changed_uses", "refresh_env_dep", "the stored value of a changed variable follows the change", why)
+    # re-pending the steps and storing the new value are one transaction: a kill between the two would leave the new
+    # value stored with the steps still up to date, and the next restart sees no change
+    re_ = ctx.prog.func("startup.rescan_env_vars")
+    together = False
+    for w in ast.walk(re_.node):
+        if isinstance(w, (ast.AsyncWith, ast.With)) and any("db" in ast.unparse(it.context_expr) for it in w.items):
+            names = {callee_name(c) for c in calls_in(w)}
+            if {"mark_step_pending", "refresh_env_dep"} <= names:
+                together = True
+    ctx.check(together, re_.fq, "re-pending the steps and storing the new value of the variable are one transaction", f"the two updates are committed separately: killed in between, the restart compares the environment with the value that is already stored, finds no change and leaves the steps' outputs stale: {why}", "one `async with workflow.db` around both loops", where=ctx.where_of(re_))
 
 
 def check_watcher_wired(ctx, why: str):
